@@ -351,6 +351,83 @@ def judge(data, st, case):
     return label, len(recs)
 
 
+class InjectedFault(OSError):
+    pass
+
+
+class FaultyStream(io.BytesIO):
+    """Raises on the k-th read()/seek() call (k counted over both)."""
+
+    def __init__(self, data, fail_at=None):
+        io.BytesIO.__init__(self, data)
+        self.calls = 0
+        self.fail_at = fail_at
+
+    def _tick(self):
+        self.calls += 1
+
+        if self.fail_at is not None and self.calls == self.fail_at:
+            raise InjectedFault('injected I/O fault at call %d' % self.calls)
+
+    def read(self, *a):
+        self._tick()
+        return io.BytesIO.read(self, *a)
+
+    def seek(self, *a):
+        self._tick()
+        return io.BytesIO.seek(self, *a)
+
+
+def run_io_faults(case, st):
+    """Every fault point of loading one file from a stream."""
+    ns = sut.load()
+    data = case['data']
+    probe = FaultyStream(data)
+
+    try:
+        ns.DiffX.from_stream(probe)
+    except Exception:
+        pass
+
+    n = probe.calls
+    st.case(case, nontrivial=n >= 4,
+            classes=['stream-calls-%s' % (n if n < 10 else '10+')])
+    st.classes['fault-points'] += n
+
+    if not probe.closed:
+        st.violation('from_stream:stream-left-open',
+                     'no fault injected; stream.closed is False', case)
+
+    for k in ([case['fail_at']] if 'fail_at' in case else range(1, n + 1)):
+        stream = FaultyStream(data, fail_at=k)
+        raised = None
+
+        try:
+            ns.DiffX.from_stream(stream)
+        except BaseException as e:
+            raised = e
+
+        if not stream.closed:
+            st.violation('from_stream:stream-left-open-after-io-fault',
+                         'read()/seek() call %d of %d raised; stream.closed '
+                         'is False afterwards (exception seen by the '
+                         'caller: %r)' % (k, n, raised),
+                         dict(case, fail_at=k))
+        elif raised is None and stream.calls >= k:
+            st.violation('from_stream:io-fault-swallowed',
+                         'the fault injected at call %d of %d disappeared '
+                         'and loading returned normally' % (k, n),
+                         dict(case, fail_at=k))
+
+
+@hs.composite
+def io_cases(draw):
+    if draw(hs.integers(0, 3)) == 0:
+        return draw(corrupted())
+
+    return {'data': draw(base_files())}
+
+
 def run_case(case, st):
     data = case['data']
     label, nrecs = judge(data, st, case)
@@ -477,6 +554,15 @@ def checks():
             budget={'quick': (8, 300), 'thorough': (16, 20000)},
             rule='arbitrary bytes and token soups of DiffX fragments; '
                  'non-trivial = the reader produced >= 1 record'),
+        HypCheck(
+            'io-faults', io_cases, run_io_faults,
+            budget={'quick': (8, 40), 'thorough': (16, 2000)},
+            rule='loading from a stream whose k-th read()/seek() raises, '
+                 'for EVERY k up to the number of calls an undisturbed load '
+                 'makes (well-formed and corrupted files): the stream must '
+                 'be closed afterwards and the fault must not vanish; '
+                 'non-trivial = the undisturbed load makes >= 4 stream '
+                 'calls'),
         EnumCheck(
             'atheris', atheris_chunks, run_atheris, run_case=run_case,
             exhaustive=False,
